@@ -20,13 +20,13 @@ PROP = {
                                  "swap-negates-bit-for-bit": 3000000, "epsilon-sign-irrelevant": 3000000, "equal-limits-give-zero": 3000000}},
     },
     "technique": "runtime monitoring: value oracle against a long double reference (midpoint-shifted polynomial, closed forms), integrand wrapper "
-                 "recording every abscissa, std::cout capture for the non-convergence warning, tick counter on the panel routine; gcc ASan+UBSan build in parallel",
+                 "recording every abscissa, a-priori depth bound from the fourth derivative (no dependence on library message text), tick counter on the panel routine; gcc ASan+UBSan build in parallel",
     "level_text": "Integrate(f,a,b,epsilon,depth) was executed on generated polynomials, estimator-regular integrands, quartic splines and rough integrands; "
                   "each result was compared with an exact long double reference (exactness within 64 eps |b-a| sum (k+1)|c_k| m^k; error <= 4|epsilon| + 64 eps int|f| "
-                  "when no non-convergence warning was printed), each call was repeated with swapped limits, with -epsilon and with equal limits (bit comparison), "
+                  "for requests whose depth budget suffices a priori: derived from the maximum of the fourth derivative, the width and epsilon); quartics and quintics with epsilon 1e-18 at depth 16-21 exhaust the recursion everywhere and must still be exact; nested calls (the integrand itself integrates); each call was repeated with swapped limits, with -epsilon and with equal limits (bit comparison), "
                   "and every evaluation abscissa and the evaluation count were checked. Exploration: it shows the property on the inputs run, not on all inputs.",
     "level_note": "Trusted: the long double reference formulas in harness/integ_common.hpp, the analytic ratio of the fourth derivative computed by the driver, "
-                  "std::cout redirection for the warning, the harness plumbing. The 4|epsilon| clause is judged only for runs that printed no non-convergence warning.",
-    "assumptions": STD_ASSUME + ["the error clause is judged only when the library printed no non-convergence warning (runs that did are counted as outside)",
+                  "the a-priori depth bound of harness/integ_common.hpp (Simpson error formula), the harness plumbing. No clause depends on the text of a library message.",
+    "assumptions": STD_ASSUME + ["the error clause is judged only for requests whose depth budget is at least the a-priori bound simpson_depth_needed (others are counted as outside: no implementation can meet 4 epsilon there)",
                                  "integrands are evaluated in double (Horner, std::exp, std::pow); their rounding is covered by the 64 eps int|f| term"],
 }
